@@ -30,6 +30,16 @@ CLAIMED = {
         technique="Rocq proof (decoder-vs-reference-decoder simulation) + translator-regenerated constants + in-Coq differential correspondence",
         design="5/C02",
     ),
+    "C14": dict(
+        text="Theorems (Props/C14.v): the Item API's encoder equals the variables API's encoder on every typed value (C14_apis_agree) and both equal the "
+             "E5 specification (C14_encode_exact); Item.decode of every encoding the reference decoder accepts returns the item's value, which re-encodes "
+             "canonically (C14_decode_reencode_canonical, via a model-to-model agreement lemma with the ANYVALUE decoder and C02's simulation); from_value(int) "
+             "is exactly the standard's narrowest unsigned/signed type (C14_from_value_narrowest); the two regenerated constant tables coincide "
+             "(C14_constants_coincide). Tied to the code by differential execution of constructors, from_value, encode, decode and the cross-API bytes.",
+        note=NOTE_COMMON + " JIS-8 items reach Item.decode only through the correspondence (Dynamic has no J entry, DESIGN 11); str.encode('utf-8') is modelled for ASCII only; floats given to from_value are outside the statement's list of plain types.",
+        technique="Rocq proof (encoder equality, model-to-model decoder agreement, decision rule for from_value) + regenerated constants + in-Coq differential correspondence",
+        design="5/C14",
+    ),
 }
 
 NOT_YET = {}
